@@ -94,6 +94,9 @@ Qed.
 Lemma lookup_setcont i c f q : lookup (set_cont i c f) q = lookup f q.
 Proof. reflexivity. Qed.
 
+Lemma lookup_setdmode p m f q : lookup (set_dmode p m f) q = lookup f q.
+Proof. reflexivity. Qed.
+
 (* ---------- the invariant ---------- *)
 
 (* a link whose walk, started in directory [base] (the root for an absolute target),
@@ -219,6 +222,26 @@ Proof.
     apply Nat.eqb_eq in E2. apply (inv_fresh _ _ I) in E. lia.
 Qed.
 
+Lemma keeps_setdmode wd f p m : Inv wd f -> inside wd p = true -> Keeps wd f (set_dmode p m f).
+Proof.
+  intros I Hin. split.
+  - constructor.
+    + exact (inv_wd _ _ I).
+    + exact (inv_sym _ _ I).
+    + exact (inv_ino _ _ I).
+    + exact (inv_fresh _ _ I).
+  - intros q Hq. unfold view_at. rewrite lookup_setdmode.
+    destruct (lookup f q) as [[|j|]|]; try reflexivity.
+    unfold dir_mode, set_dmode; simpl. rewrite (outside_neq _ _ _ Hin Hq). reflexivity.
+Qed.
+
+Lemma keeps_newdir wd f p m : Inv wd f -> sinside wd p -> Keeps wd f (new_dir p m f).
+Proof.
+  intros I Hp. unfold new_dir.
+  pose proof (keeps_set wd f p NDir I Hp Logic.I) as K1.
+  eapply Keeps_trans; [exact K1|]. apply keeps_setdmode; [exact (proj1 K1) | now apply sinside_inside].
+Qed.
+
 (* ---------- kernel path resolution stays inside ---------- *)
 
 Definition compat (wd lv : path) : Prop := exists x, inside wd (lv ++ x) = true.
@@ -267,9 +290,9 @@ Qed.
 Lemma Ups_Nms_app m ns r : (Ups m ++ Nms ns) ++ Nms r = Ups m ++ Nms (ns ++ r).
 Proof. unfold Nms. now rewrite <- app_assoc, map_app. Qed.
 
-Definition walk_post (wd : path) (f : fsys) (strict : bool) (w : wres) : Prop :=
+Definition walk_post (wd : path) (f : fsys) (strict ins : bool) (w : wres) : Prop :=
   match w with
-  | WDir p => compat wd p /\ (strict = true -> sinside wd p)
+  | WDir p => compat wd p /\ (strict = true -> sinside wd p) /\ (ins = true -> inside wd p = true)
   | WFile p i => sinside wd p /\ lookup f p = Some (NFile i)
   | WSym p d a cs => sinside wd p /\ lookup f p = Some (NSym d a cs)
   | WNoEnt p => sinside wd p /\ lookup f p = None
@@ -277,17 +300,18 @@ Definition walk_post (wd : path) (f : fsys) (strict : bool) (w : wres) : Prop :=
   end.
 
 Lemma walk_inside wd f (I : Inv wd f) :
-  forall fuel nl cur m ns follow strict,
+  forall fuel nl cur m ns follow strict ins,
     compat wd (lexv cur m ns) ->
     (strict = true -> follow = false /\ sinside wd (lexv cur m ns)) ->
-    walk_post wd f strict (walk fuel f nl cur (Ups m ++ Nms ns) follow).
+    (ins = true -> inside wd (lexv cur m ns) = true) ->
+    walk_post wd f strict ins (walk fuel f nl cur (Ups m ++ Nms ns) follow).
 Proof.
-  induction fuel as [|fuel IH]; intros nl cur m ns follow strict Hc Hs; [exact Logic.I|].
+  induction fuel as [|fuel IH]; intros nl cur m ns follow strict ins Hc Hs Hi; [exact Logic.I|].
   destruct m as [|m].
   - destruct ns as [|c ns].
-    + simpl. rewrite lexv_nil in *. split; [exact Hc|]. intro E. apply Hs in E. tauto.
+    + simpl. rewrite lexv_nil in *. split; [exact Hc|]. split; [|exact Hi]. intro E. apply Hs in E. tauto.
     + rewrite lexv_cons in *.
-      assert (Hstep : walk_post wd f strict (walk fuel f nl (cur ++ [c]) (Ups 0 ++ Nms ns) follow)).
+      assert (Hstep : walk_post wd f strict ins (walk fuel f nl (cur ++ [c]) (Ups 0 ++ Nms ns) follow)).
       { apply IH; rewrite ?lexv_nil; unfold lexv; rewrite Nat.sub_0_r, firstn_all, <- app_assoc; assumption. }
       simpl in Hstep. simpl.
       destruct Hc as [x Hc]. rewrite <- app_assoc in Hc. simpl in Hc.
@@ -298,13 +322,14 @@ Proof.
         -- destruct ns; [split; assumption | exact Logic.I].
         -- pose proof (inv_sym _ _ I _ _ _ _ L (sinside_inside _ _ Hp)) as (m' & ns2 & -> & Hg).
            rewrite removelast_last in Hg.
-           assert (Hgo : (ns <> [] \/ follow = true) -> forall nl', walk_post wd f strict
+           assert (Hgo : (ns <> [] \/ follow = true) -> forall nl', walk_post wd f strict ins
                      (walk fuel f nl' (if a then [] else cur) ((Ups m' ++ Nms ns2) ++ Nms ns) follow)).
            { intros Hor nl'. rewrite Ups_Nms_app. apply IH.
              - exists []. rewrite app_nil_r. unfold lexv. rewrite app_assoc. apply inside_app. exact Hg.
              - intro E. destruct (Hs E) as [Hf _]. split; [exact Hf|].
                unfold lexv. rewrite app_assoc. apply inside_sinside_app; [exact Hg|].
-               destruct Hor as [H|H]; [exact H | congruence]. }
+               destruct Hor as [H|H]; [exact H | congruence].
+             - intros _. unfold lexv. rewrite app_assoc. apply inside_app. exact Hg. }
            destruct ns as [|n ns'].
            ++ destruct follow.
               ** destruct nl as [|nl']; [exact Logic.I|]. apply Hgo. now right.
@@ -532,14 +557,21 @@ Proof.
   apply path_eqb_spec in E. contradiction.
 Qed.
 
+Lemma awalk_post_gen wd f ns follow strict ins :
+  Inv wd f -> compat wd ns ->
+  (strict = true -> follow = false /\ sinside wd ns) ->
+  (ins = true -> inside wd ns = true) ->
+  walk_post wd f strict ins (awalk f ns follow).
+Proof.
+  intros I Hc Hs Hi. unfold awalk.
+  apply (walk_inside wd f I FUEL NLINK [] 0 ns follow strict ins); unfold lexv; simpl; assumption.
+Qed.
+
 Lemma awalk_post wd f ns follow strict :
   Inv wd f -> compat wd ns ->
   (strict = true -> follow = false /\ sinside wd ns) ->
-  walk_post wd f strict (awalk f ns follow).
-Proof.
-  intros I Hc Hs. unfold awalk.
-  apply (walk_inside wd f I FUEL NLINK [] 0 ns follow strict); unfold lexv; simpl; assumption.
-Qed.
+  walk_post wd f strict false (awalk f ns follow).
+Proof. intros I Hc Hs. apply awalk_post_gen; auto. discriminate. Qed.
 
 Lemma nostrict (follow : bool) (P : Prop) : false = true -> follow = false /\ P.
 Proof. discriminate. Qed.
@@ -550,9 +582,12 @@ Proof. intro H. exists []. now rewrite app_nil_r. Qed.
 Lemma Nms_snoc d c : Nms d ++ [Nm c] = Nms (d ++ [c]).
 Proof. unfold Nms. now rewrite map_app. Qed.
 
-Lemma mkdir_prefixes_keeps wd : forall t d f f',
+Lemma dirs_kept_newdir f p m ex : lookup f p <> Some NDir -> dirs_kept f (new_dir p m f) ex.
+Proof. intros Hp q H N. unfold new_dir. rewrite lookup_setdmode. exact (dirs_kept_set f p NDir ex Hp q H N). Qed.
+
+Lemma mkdir_prefixes_keeps wd mo : forall t d f f',
   Inv wd f -> compat wd (d ++ t) ->
-  mkdir_prefixes f (Nms d) (Nms t) = Some f' ->
+  mkdir_prefixes f (Nms d) (Nms t) mo = Some f' ->
   Keeps wd f f' /\ dirs_kept f f' nobody.
 Proof.
   induction t as [|c t IH]; intros d f f' I Hc H.
@@ -565,27 +600,27 @@ Proof.
     pose proof (awalk_post wd f (d ++ [c]) false false I Hc1 (nostrict _ _)) as W2.
     unfold awalk in W1, W2.
     assert (Hcreate : match walk FUEL f NLINK [] (Nms (d ++ [c])) false with
-                      | WNoEnt p => mkdir_prefixes (set_ent p NDir f) (Nms (d ++ [c])) (Nms t)
+                      | WNoEnt p => mkdir_prefixes (new_dir p mo f) (Nms (d ++ [c])) (Nms t) mo
                       | _ => None end = Some f' ->
                       Keeps wd f f' /\ dirs_kept f f' nobody).
     { destruct (walk FUEL f NLINK [] (Nms (d ++ [c])) false); try discriminate.
       destruct W2 as [Hp Lp]. intro H2.
-      pose proof (keeps_set wd f p NDir I Hp Logic.I) as K1.
+      pose proof (keeps_newdir wd f p mo I Hp) as K1.
       destruct (IH _ _ _ (proj1 K1) Hc2 H2) as [K2 D2].
       split; [eapply Keeps_trans; eauto|].
-      eapply dirs_kept_trans; [|exact D2]. apply dirs_kept_set. rewrite Lp. discriminate. }
+      eapply dirs_kept_trans; [|exact D2]. apply dirs_kept_newdir. rewrite Lp. discriminate. }
     destruct (walk FUEL f NLINK [] (Nms (d ++ [c])) true); try (apply Hcreate; exact H).
     + apply (IH _ _ _ I Hc2 H).
     + discriminate.
 Qed.
 
-Lemma mkdir_all_keeps wd ns f f' :
-  Inv wd f -> compat wd ns -> mkdir_all f (Nms ns) = Some f' ->
+Lemma mkdir_all_keeps wd ns mo f f' :
+  Inv wd f -> compat wd ns -> mkdir_all f (Nms ns) mo = Some f' ->
   Keeps wd f f' /\ dirs_kept f f' nobody.
-Proof. intros I Hc H. apply (mkdir_prefixes_keeps wd ns [] f f' I Hc H). Qed.
+Proof. intros I Hc H. apply (mkdir_prefixes_keeps wd mo ns [] f f' I Hc H). Qed.
 
-Lemma write_at_keeps wd ns c f f' :
-  Inv wd f -> compat wd ns -> write_at f (Nms ns) c = Some f' ->
+Lemma write_at_keeps wd ns c mo f f' :
+  Inv wd f -> compat wd ns -> write_at f (Nms ns) c mo = Some f' ->
   Keeps wd f f' /\ dirs_kept f f' nobody.
 Proof.
   intros I Hc H. unfold write_at in H.
@@ -593,6 +628,30 @@ Proof.
   destruct (walk FUEL f NLINK [] (Nms ns) true); try discriminate; injection H as <-; destruct W as [Hp Lp].
   - split; [eapply keeps_setcont; eauto using sinside_inside|]. intros q Hq _. exact Hq.
   - split; [now apply keeps_newfile|]. apply dirs_kept_new. rewrite Lp. discriminate.
+Qed.
+
+Lemma chmod_at_keeps wd ns mo f f' :
+  Inv wd f -> inside wd ns = true -> chmod_at f ns mo = Some f' ->
+  Keeps wd f f' /\ dirs_kept f f' nobody.
+Proof.
+  intros I Hin H. unfold chmod_at in H.
+  pose proof (awalk_post_gen wd f ns true false true I (inside_compat _ _ Hin) (nostrict _ _) (fun _ => Hin)) as W.
+  destruct (awalk f ns true); try discriminate; injection H as <-.
+  - destruct W as (_ & _ & Hp). split; [apply keeps_setdmode; [exact I | apply Hp; reflexivity]|]. intros q Hq _. exact Hq.
+  - destruct W as [Hp Lp]. split; [exact (keeps_setcont wd f i _ p I (sinside_inside _ _ Hp) Lp)|]. intros q Hq _. exact Hq.
+Qed.
+
+Lemma chmod_if_keeps wd pres r fp mo f f' :
+  Inv wd f -> inside wd fp = true ->
+  (forall f1, r = Some f1 -> Keeps wd f f1 /\ dirs_kept f f1 nobody) ->
+  chmod_if pres r fp mo = Some f' ->
+  Keeps wd f f' /\ dirs_kept f f' nobody.
+Proof.
+  intros I Hin Hr H. unfold chmod_if in H. destruct r as [f1|]; [|discriminate].
+  destruct (Hr f1 eq_refl) as [K1 D1]. destruct pres.
+  - destruct (chmod_at_keeps wd fp mo f1 f' (proj1 K1) Hin H) as [K2 D2].
+    split; [eapply Keeps_trans; eauto | eapply dirs_kept_trans; eauto].
+  - injection H as <-. split; assumption.
 Qed.
 
 Lemma remove_at_keeps wd fp f f' :
@@ -693,9 +752,9 @@ Lemma RealD_kept f f' dp (ex : path -> Prop) :
   (forall q r, dp = q ++ r -> ~ ex q) -> RealD f' [] dp.
 Proof. intros H D N q r E Hq. simpl. apply D; [apply (H q r E Hq) | apply (N q r E)]. Qed.
 
-Lemma extract_entry_keeps wd cwd dp dirName f e f' :
+Lemma extract_entry_keeps wd pres cwd dp dirName f e f' :
   Inv wd f -> inside wd dp = true -> RealD f [] dp ->
-  extract_entry cfg_fixed cwd dp dirName f e = Some f' ->
+  extract_entry cfg_fixed pres cwd dp dirName f e = Some f' ->
   Keeps wd f f' /\ RealD f' [] dp.
 Proof.
   intros I Hd HR H. unfold extract_entry, resolve_rel in H. cbn [fixR cfg_fixed] in H.
@@ -706,9 +765,11 @@ Proof.
   { apply lexreal_app; [exact HR|]. simpl. now apply parents_ok_lexreal. }
   assert (Hnob : forall g, Keeps wd f g /\ dirs_kept f g nobody -> Keeps wd f g /\ RealD g [] dp).
   { intros g [K D]. split; [exact K|]. eapply RealD_kept; [exact HR | exact D | intros q r _ []]. }
-  destruct e as [nm c|nm|nm tgt|nm tgt|nm]; cbn [entry_name] in *.
-  - apply Hnob. apply (write_at_keeps wd (dp ++ rel) c f f' I (inside_compat _ _ Hfp) H).
-  - apply Hnob. apply (mkdir_all_keeps wd (dp ++ rel) f f' I (inside_compat _ _ Hfp) H).
+  destruct e as [nm c mo|nm mo|nm tgt|nm tgt|nm]; cbn [entry_name] in *.
+  - apply Hnob. apply (chmod_if_keeps wd pres (write_at f (Nms (dp ++ rel)) c mo) (dp ++ rel) mo f f' I Hfp); [|exact H].
+    intros f1 E1. apply (write_at_keeps wd (dp ++ rel) c mo f f1 I (inside_compat _ _ Hfp) E1).
+  - apply Hnob. apply (chmod_if_keeps wd pres (mkdir_all f (Nms (dp ++ rel)) mo) (dp ++ rel) mo f f' I Hfp); [|exact H].
+    intros f1 E1. apply (mkdir_all_keeps wd (dp ++ rel) mo f f1 I (inside_compat _ _ Hfp) E1).
   - destruct rel as [|r0 rel']; [discriminate|]. set (rel := r0 :: rel') in *.
     destruct (ensure_link f dp (dp ++ rel) tgt) as [pn|] eqn:EL; [|discriminate].
     destruct (ensure_link_inside _ _ _ _ _ _ Hd EL) as [_ Hpn].
@@ -726,16 +787,16 @@ Proof.
   - injection H as <-. split; [now apply Keeps_refl | exact HR].
 Qed.
 
-Lemma extract_keeps wd cwd dp dirName : forall es f f' ok,
+Lemma extract_keeps wd pres cwd dp dirName : forall es f f' ok,
   Inv wd f -> inside wd dp = true -> RealD f [] dp ->
-  extract cfg_fixed cwd dp dirName f es = (f', ok) ->
+  extract cfg_fixed pres cwd dp dirName f es = (f', ok) ->
   Keeps wd f f'.
 Proof.
   induction es as [|e es IH]; intros f f' ok I Hd HR H.
   - injection H as <- _. now apply Keeps_refl.
   - cbn [extract] in H.
-    destruct (extract_entry cfg_fixed cwd dp dirName f e) as [f1|] eqn:E.
-    + destruct (extract_entry_keeps _ _ _ _ _ _ _ I Hd HR E) as [K1 HR1].
+    destruct (extract_entry cfg_fixed pres cwd dp dirName f e) as [f1|] eqn:E.
+    + destruct (extract_entry_keeps _ _ _ _ _ _ _ _ I Hd HR E) as [K1 HR1].
       eapply Keeps_trans; [exact K1|]. eapply IH; eauto. exact (proj1 K1).
     + injection H as <- _. now apply Keeps_refl.
 Qed.
@@ -755,9 +816,9 @@ Proof.
   - rewrite removelast_last. exists [a]. exact H.
 Qed.
 
-Lemma push_keeps wd cwd s o s' ok :
+Lemma push_keeps wd pres cwd s o s' ok :
   Inv wd (st_fs s) ->
-  push cfg_fixed wd cwd s o = (s', ok) ->
+  push cfg_fixed pres wd cwd s o = (s', ok) ->
   Keeps wd (st_fs s) (st_fs s').
 Proof.
   intros I H. unfold push in H.
@@ -775,23 +836,23 @@ Proof.
   destruct Hraw as (cl & -> & Hcl).
   destruct o as [t c|t es]; cbn [push_title] in *.
   - rewrite removelast_Nms, clean_abs_names in H.
-    destruct (mkdir_all (st_fs s) (Nms (removelast cl))) as [f1|] eqn:M.
+    destruct (mkdir_all (st_fs s) (Nms (removelast cl)) 511) as [f1|] eqn:M.
     2:{ injection H as <- _. now apply Keeps_refl. }
-    destruct (mkdir_all_keeps wd _ _ _ I (compat_removelast _ _ Hcl) M) as [K1 _].
-    destruct (write_at f1 (Nms cl) c) as [f2|] eqn:Wr.
+    destruct (mkdir_all_keeps wd _ _ _ _ I (compat_removelast _ _ Hcl) M) as [K1 _].
+    destruct (write_at f1 (Nms cl) c 438) as [f2|] eqn:Wr.
     + injection H as <- _. simpl. eapply Keeps_trans; [exact K1|].
       eapply write_at_keeps; eauto using inside_compat. exact (proj1 K1).
     + injection H as <- _. exact K1.
   - rewrite clean_abs_names in H. cbn [fixD cfg_fixed] in H.
-    destruct (mkdir_all (st_fs s) (Nms cl)) as [f1|] eqn:M.
+    destruct (mkdir_all (st_fs s) (Nms cl) 511) as [f1|] eqn:M.
     2:{ injection H as <- _. now apply Keeps_refl. }
-    destruct (mkdir_all_keeps wd _ _ _ I (inside_compat _ _ Hcl) M) as [K1 _].
+    destruct (mkdir_all_keeps wd _ _ _ _ I (inside_compat _ _ Hcl) M) as [K1 _].
     destruct (strip_prefix wd cl) as [rel|] eqn:SP.
     2:{ injection H as <- _. exact K1. }
     destruct (all_real f1 wd rel) eqn:AR.
     2:{ injection H as <- _. exact K1. }
     cbn [negb] in H.
-    destruct (extract cfg_fixed cwd cl t f1 es) as [f2 ok2] eqn:EX.
+    destruct (extract cfg_fixed pres cwd cl t f1 es) as [f2 ok2] eqn:EX.
     injection H as <- _. simpl.
     eapply Keeps_trans; [exact K1|].
     apply strip_prefix_spec in SP. subst cl.
@@ -799,18 +860,18 @@ Proof.
     apply RealD_wd; [exact (proj1 K1)|]. now apply all_real_spec.
 Qed.
 
-Lemma pushes_keeps wd cwd : forall os s s' oks,
+Lemma pushes_keeps wd pres cwd : forall os s s' oks,
   Inv wd (st_fs s) ->
-  pushes cfg_fixed wd cwd s os = (s', oks) ->
+  pushes cfg_fixed pres wd cwd s os = (s', oks) ->
   Keeps wd (st_fs s) (st_fs s').
 Proof.
   induction os as [|o os IH]; intros s s' oks I H.
   - injection H as <- _. now apply Keeps_refl.
   - cbn [pushes] in H.
-    destruct (push cfg_fixed wd cwd s o) as [s1 ok] eqn:P.
-    destruct (pushes cfg_fixed wd cwd s1 os) as [s2 oks2] eqn:Ps.
+    destruct (push cfg_fixed pres wd cwd s o) as [s1 ok] eqn:P.
+    destruct (pushes cfg_fixed pres wd cwd s1 os) as [s2 oks2] eqn:Ps.
     injection H as <- _.
-    pose proof (push_keeps _ _ _ _ _ _ I P) as K1.
+    pose proof (push_keeps _ _ _ _ _ _ _ I P) as K1.
     eapply Keeps_trans; [exact K1|]. eapply IH; eauto. exact (proj1 K1).
 Qed.
 
@@ -831,9 +892,9 @@ Proof.
     intros [= <-]. split; [reflexivity|]. destruct (fixA g); apply clean_abs_names.
 Qed.
 
-Lemma push_outside_title g wd cwd s o :
+Lemma push_outside_title g pres wd cwd s o :
   inside wd (lex_loc wd (push_title o)) = false -> push_title o <> [] ->
-  push g wd cwd s o = (s, false).
+  push g pres wd cwd s o = (s, false).
 Proof.
   intros H Hne. unfold push. destruct (push_title o) as [|t0 tt] eqn:ET; [contradiction|].
   rewrite <- ET in *. destruct (existsb (str_eqb (push_title o)) (st_names s)); [reflexivity|].
@@ -854,23 +915,23 @@ Proof.
     rewrite !clean_abs_join, H, Em, app_assoc. reflexivity.
 Qed.
 
-Lemma entry_outside_rejected g wd cwd title f e :
+Lemma entry_outside_rejected g pres wd cwd title f e :
   inside wd (lex_loc wd title) = true ->
   inside wd (lex_loc wd (entry_name e)) = false ->
-  extract_entry g cwd (lex_loc wd title) title f e = None.
+  extract_entry g pres cwd (lex_loc wd title) title f e = None.
 Proof.
   intros Ht He. unfold extract_entry, resolve_rel.
   destruct (entry_rel (lex_loc wd title) title (entry_name e)) as [ns|] eqn:E; [|reflexivity].
   apply entry_rel_inside in E. rewrite E, inside_app in He; [discriminate | exact Ht].
 Qed.
 
-Lemma extract_stops g cwd dp dirName e es2 : forall es1 f,
-  (forall f0, extract_entry g cwd dp dirName f0 e = None) ->
-  snd (extract g cwd dp dirName f (es1 ++ e :: es2)) = false.
+Lemma extract_stops g pres cwd dp dirName e es2 : forall es1 f,
+  (forall f0, extract_entry g pres cwd dp dirName f0 e = None) ->
+  snd (extract g pres cwd dp dirName f (es1 ++ e :: es2)) = false.
 Proof.
   induction es1 as [|e1 es1 IH]; intros f H; cbn [app extract].
   - now rewrite H.
-  - destruct (extract_entry g cwd dp dirName f e1); [now apply IH | reflexivity].
+  - destruct (extract_entry g pres cwd dp dirName f e1); [now apply IH | reflexivity].
 Qed.
 
 (* ---------- a concrete tree: the hypotheses are satisfiable, the unrepaired code escapes ---------- *)
@@ -882,7 +943,7 @@ Definition fs0 : fsys :=
          ([b "victim"], NFile 1); ([b "c"], NDir); ([b "c"; b "secret"], NFile 2);
          ([b "r"; b "x"], NDir); ([b "r"; b "x"; b "victim"], NFile 3);
          ([b "r"; b "w"; b "old"], NFile 4) ]
-       [ (0, 100%N); (1, 101%N); (2, 102%N); (3, 103%N); (4, 104%N) ] 5.
+       [ (0, 100%N); (1, 101%N); (2, 102%N); (3, 103%N); (4, 104%N) ] 5 [].
 
 Lemma inv_fs0 : Inv wd0 fs0.
 Proof.
@@ -915,7 +976,7 @@ Proof.
 Qed.
 
 Definition run0 (g : cfg) (os : list pushop) : fsys * list bool :=
-  let '(s, oks) := pushes g wd0 cwd0 (mkStore fs0 []) os in (st_fs s, oks).
+  let '(s, oks) := pushes g false wd0 cwd0 (mkStore fs0 []) os in (st_fs s, oks).
 
 Definition escapes (g : cfg) : Prop :=
   exists os p, inside wd0 p = false /\ view_at (fst (run0 g os)) p <> view_at fs0 p.
@@ -925,34 +986,34 @@ Ltac escape_with os p :=
 
 (* F10: hard link whose relative target is taken from the process's current directory *)
 Definition os_hardlink_cwd : list pushop :=
-  [PDir (b "t") [EHard (b "t/h") (b "secret"); EReg (b "t/h") 7%N]].
+  [PDir (b "t") [EHard (b "t/h") (b "secret"); EReg (b "t/h") 7%N 420%N]].
 Lemma refuted_hardlink_cwd : escapes (mkCfg false true true true true true).
 Proof. escape_with os_hardlink_cwd [b "c"; b "secret"]. Qed.
 
 (* F11: link created with the raw target *)
 Definition os_raw_target : list pushop :=
-  [PDir (b "t") [EDir (b "t/a/b"); ESym (b "t/a/b/s") (b "../..");
-                 ESym (b "t/l") (b "a/b/s/../../../victim"); EReg (b "t/l") 7%N]].
+  [PDir (b "t") [EDir (b "t/a/b") 493%N; ESym (b "t/a/b/s") (b "../..");
+                 ESym (b "t/l") (b "a/b/s/../../../victim"); EReg (b "t/l") 7%N 420%N]].
 Lemma refuted_raw_target : escapes (mkCfg true false true true true true).
 Proof. escape_with os_raw_target [b "victim"]. Qed.
 
 (* unpack directory reached through a link created by the store *)
 Definition os_title_through_link : list pushop :=
   [PDir (b ".") [ESym (b "./x") (b ".")];
-   PDir (b "x") [ESym (b "x/l") (b "../x/victim"); EReg (b "x/l") 7%N]].
+   PDir (b "x") [ESym (b "x/l") (b "../x/victim"); EReg (b "x/l") 7%N 420%N]].
 Lemma refuted_title_through_link : escapes (mkCfg true true false true true true).
 Proof. escape_with os_title_through_link [b "r"; b "x"; b "victim"]. Qed.
 
 (* absolute title used raw: ".." after a store link *)
 Definition os_abs_title : list pushop :=
-  [PDir (b "t") [EDir (b "t/b"); ESym (b "t/b/s") (b "..")];
+  [PDir (b "t") [EDir (b "t/b") 493%N; ESym (b "t/b/s") (b "..")];
    PBlob (b "/r/w/t/b/s/../../../victim") 7%N].
 Lemma refuted_abs_title : escapes (mkCfg true true true false true true).
 Proof. escape_with os_abs_title [b "victim"]. Qed.
 
 (* hard link to a symbolic link *)
 Definition os_hardlink_symlink : list pushop :=
-  [PDir (b "t") [EDir (b "t/b/c"); ESym (b "t/b/c/s") (b "../.."); EHard (b "t/h") (b "b/c/s")];
+  [PDir (b "t") [EDir (b "t/b/c") 493%N; ESym (b "t/b/c/s") (b "../.."); EHard (b "t/h") (b "b/c/s")];
    PBlob (b "t/h/victim") 7%N].
 Lemma refuted_hardlink_symlink : escapes (mkCfg true true true true false true).
 Proof. escape_with os_hardlink_symlink [b "r"; b "victim"]. Qed.
@@ -962,15 +1023,15 @@ Proof. escape_with os_hardlink_cwd [b "c"; b "secret"]. Qed.
 
 (* the repaired store accepts ordinary archives (hypotheses and success are not vacuous) *)
 Definition os_ordinary : list pushop :=
-  [PDir (b "t") [EDir (b "t/a/b"); EReg (b "t/a/b/f") 7%N; ESym (b "t/a/b/s") (b "../..");
-                 ESym (b "t/l") (b "a/b/s/../x"); EHard (b "t/h") (b "a/b/f"); EReg (b "t/h") 8%N;
-                 ESym (b "t/l") (b "a/b/f"); EReg (b "t/l") 9%N];
+  [PDir (b "t") [EDir (b "t/a/b") 493%N; EReg (b "t/a/b/f") 7%N 384%N; ESym (b "t/a/b/s") (b "../..");
+                 ESym (b "t/l") (b "a/b/s/../x"); EHard (b "t/h") (b "a/b/f"); EReg (b "t/h") 8%N 420%N;
+                 ESym (b "t/l") (b "a/b/f"); EReg (b "t/l") 9%N 420%N];
    PBlob (b "t/a/new") 10%N; PBlob (b "old") 11%N].
 
 Lemma ordinary_ok :
   snd (run0 cfg_fixed os_ordinary) = [true; true; true] /\
-  view_at (fst (run0 cfg_fixed os_ordinary)) [b "r"; b "w"; b "t"; b "a"; b "b"; b "f"] = VFile 9%N /\
-  view_at (fst (run0 cfg_fixed os_ordinary)) [b "r"; b "w"; b "old"] = VFile 11%N.
+  view_at (fst (run0 cfg_fixed os_ordinary)) [b "r"; b "w"; b "t"; b "a"; b "b"; b "f"] = VFile (enc 9 384) /\
+  view_at (fst (run0 cfg_fixed os_ordinary)) [b "r"; b "w"; b "old"] = VFile (enc 11 104).
 Proof.
   vm_compute. repeat split.
 Qed.
@@ -981,40 +1042,40 @@ Lemma attacks_confined_fixed :
   forall p, inside wd0 p = false -> view_at (fst (run0 cfg_fixed os)) p = view_at fs0 p.
 Proof.
   intros os Hin p Hp. unfold run0.
-  destruct (pushes cfg_fixed wd0 cwd0 (mkStore fs0 []) os) as [s oks] eqn:E. simpl.
-  apply (proj2 (pushes_keeps wd0 cwd0 os (mkStore fs0 []) s oks inv_fs0 E) p Hp).
+  destruct (pushes cfg_fixed false wd0 cwd0 (mkStore fs0 []) os) as [s oks] eqn:E. simpl.
+  apply (proj2 (pushes_keeps wd0 false cwd0 os (mkStore fs0 []) s oks inv_fs0 E) p Hp).
 Qed.
 
-Lemma push_outside_entry g wd cwd s title es1 e es2 :
+Lemma push_outside_entry g pres wd cwd s title es1 e es2 :
   title <> [] ->
   inside wd (lex_loc wd (entry_name e)) = false ->
-  snd (push g wd cwd s (PDir title (es1 ++ e :: es2))) = false.
+  snd (push g pres wd cwd s (PDir title (es1 ++ e :: es2))) = false.
 Proof.
   intros Hne He. unfold push. cbn [push_title].
   destruct title as [|t0 tt] eqn:ET; [contradiction|]. rewrite <- ET in *.
   destruct (existsb (str_eqb title) (st_names s)); [reflexivity|].
   destruct (write_path g wd title) as [raw|] eqn:EW; [|reflexivity].
   apply write_path_lex in EW as [Hin ->].
-  destruct (mkdir_all (st_fs s) raw) as [f1|]; [|reflexivity].
+  destruct (mkdir_all (st_fs s) raw 511) as [f1|]; [|reflexivity].
   match goal with |- snd (if negb ?c then _ else _) = _ => destruct c end; cbn [negb]; [|reflexivity].
-  pose proof (extract_stops g cwd (lex_loc wd title) title e es2 es1 f1
-                (fun f0 => entry_outside_rejected g wd cwd title f0 e Hin He)) as Hs.
-  destruct (extract g cwd (lex_loc wd title) title f1 (es1 ++ e :: es2)) as [f2 ok]. simpl in *. exact Hs.
+  pose proof (extract_stops g pres cwd (lex_loc wd title) title e es2 es1 f1
+                (fun f0 => entry_outside_rejected g pres wd cwd title f0 e Hin He)) as Hs.
+  destruct (extract g pres cwd (lex_loc wd title) title f1 (es1 ++ e :: es2)) as [f2 ok]. simpl in *. exact Hs.
 Qed.
 
 (* the working directory itself stays a real directory *)
-Lemma pushes_wd_kept wd cwd os s s' oks :
+Lemma pushes_wd_kept wd pres cwd os s s' oks :
   wd <> [] -> Inv wd (st_fs s) ->
-  pushes cfg_fixed wd cwd s os = (s', oks) ->
+  pushes cfg_fixed pres wd cwd s os = (s', oks) ->
   lookup (st_fs s') wd = Some NDir.
 Proof.
-  intros Hwd I H. destruct (pushes_keeps wd cwd os s s' oks I H) as [I' _].
+  intros Hwd I H. destruct (pushes_keeps wd pres cwd os s s' oks I H) as [I' _].
   apply (inv_wd _ _ I' wd []); [now rewrite app_nil_r | exact Hwd].
 Qed.
 
 (* without the last repair an archive can replace the (empty) working directory itself by a link *)
 Definition fs1 : fsys :=
-  mkFS [ ([b "r"], NDir); ([b "r"; b "w"], NDir); ([b "r"; b "victim"], NFile 0) ] [ (0, 100%N) ] 1.
+  mkFS [ ([b "r"], NDir); ([b "r"; b "w"], NDir); ([b "r"; b "victim"], NFile 0) ] [ (0, 100%N) ] 1 [].
 
 Lemma inv_fs1 : Inv wd0 fs1.
 Proof.
@@ -1049,10 +1110,21 @@ Qed.
 Definition os_replace_wd : list pushop := [PDir (b ".") [ESym (b ".") (b "w/x")]].
 
 Lemma refuted_replace_wd :
-  lookup (st_fs (fst (pushes (mkCfg true true true true true false) wd0 cwd0 (mkStore fs1 []) os_replace_wd))) wd0
+  lookup (st_fs (fst (pushes (mkCfg true true true true true false) false wd0 cwd0 (mkStore fs1 []) os_replace_wd))) wd0
   <> Some NDir.
 Proof. vm_compute. discriminate. Qed.
 
 Lemma replace_wd_fixed :
-  pushes cfg_fixed wd0 cwd0 (mkStore fs1 []) os_replace_wd = (mkStore fs1 [], [false]).
+  pushes cfg_fixed false wd0 cwd0 (mkStore fs1 []) os_replace_wd = (mkStore fs1 [], [false]).
 Proof. vm_compute. reflexivity. Qed.
+
+(* with PreservePermissions the unrepaired code also re-modes a directory outside *)
+Definition os_remode : list pushop :=
+  [PDir (b "t") [EDir (b "t/a/b") 493%N; ESym (b "t/a/b/s") (b "../..");
+                 ESym (b "t/l") (b "a/b/s/../.."); EDir (b "t/l") 448%N]].
+
+Lemma refuted_remode :
+  inside wd0 [b "r"] = false /\
+  view_at (st_fs (fst (pushes (mkCfg true false true true true true) true wd0 cwd0 (mkStore fs0 []) os_remode))) [b "r"]
+  <> view_at fs0 [b "r"].
+Proof. split; [vm_compute; reflexivity | vm_compute; discriminate]. Qed.
